@@ -7,7 +7,7 @@
    attributes (GetUUID, remote address, GetLocalPeer, GetRemotePeer) are given
    by a universe function [U : nat -> link].  Two distinct ptrs may share a
    uuid, an address or a remote peer.  Peer ids are [Z], 0 is the empty id. *)
-From Bifrost Require Import Lib.Base.
+From Bifrost Require Import Lib.Base gen.LinkCtl.
 
 Record link := mkLink { l_uuid : Z; l_addr : Z; l_local : Z; l_remote : Z }.
 
@@ -53,10 +53,18 @@ Record state := mkState {
   st_peer : Z;                    (* c.peerID *)
   st_links : amap nat;            (* c.links : uuid -> establishedLink (one per link ptr) *)
   st_by_peer : amap (list nat);   (* c.linksByPeerID *)
-  st_closed : list nat            (* links on which Close was called *)
+  st_closed : list nat;           (* links on which Close was called *)
+  (* running EstablishLinkWithPeer(src, dst) directives with the values their
+     establishLinkResolver emitted at its last pass (it only re-reads the
+     table when woken by broadcast()) *)
+  st_dirs : list (Z * Z * list nat)
 }.
 
-Definition init (me : Z) : state := mkState me [] [] [].
+Definition init (me : Z) : state := mkState me [] [] [] [].
+
+(* does HandleLinkLost wake the resolvers?  regenerated from the source *)
+(* both flush branches of HandleLinkLost (fast path, slow path) call broadcast() *)
+Definition lost_broadcasts : bool := 2 <=? link_lost_broadcast_calls.
 
 Inductive action :=
 | Est (p : nat)                   (* HandleLinkEstablished(lnk) lock region *)
@@ -80,16 +88,16 @@ Section Ctl.
     mkState (st_peer s)
             (adel (uuid_of p) (st_links s))
             (match pl with [] => adel r (st_by_peer s) | _ => aset r pl (st_by_peer s) end)
-            (p :: st_closed s).
+            (p :: st_closed s) (st_dirs s).
 
   Definition insert (s : state) (p : nat) : state :=
     mkState (st_peer s)
             (aset (uuid_of p) p (st_links s))
             (aset (remote_of p) (peer_links (remote_of p) s ++ [p]) (st_by_peer s))
-            (st_closed s).
+            (st_closed s) (st_dirs s).
 
   Definition close_only (s : state) (p : nat) : state :=
-    mkState (st_peer s) (st_links s) (st_by_peer s) (p :: st_closed s).
+    mkState (st_peer s) (st_links s) (st_by_peer s) (p :: st_closed s) (st_dirs s).
 
   (* HandleLinkEstablished (execCtx non-nil, transport resolved) *)
   Definition do_est (s : state) (p : nat) : state :=
@@ -107,13 +115,13 @@ Section Ctl.
     let slow :=
       match find_val p (st_links s) with
       | Some k =>
-          flush (mkState (st_peer s) (adel k (st_links s)) (st_by_peer s) (st_closed s)) p
+          flush (mkState (st_peer s) (adel k (st_links s)) (st_by_peer s) (st_closed s) (st_dirs s)) p
       | None => s
       end in
     match aget (uuid_of p) (st_links s) with
     | Some q =>
         if Nat.eqb q p
-        then flush (mkState (st_peer s) (adel (uuid_of p) (st_links s)) (st_by_peer s) (st_closed s)) p
+        then flush (mkState (st_peer s) (adel (uuid_of p) (st_links s)) (st_by_peer s) (st_closed s) (st_dirs s)) p
         else slow
     | None => slow
     end.
@@ -125,15 +133,66 @@ Section Ctl.
     else if negb (Z.eqb src 0) && negb (Z.eqb src (st_peer s)) then []
     else peer_links dst s.
 
-  Definition step (s : state) (a : action) : state * list nat :=
-    match a with
-    | Est p => (do_est s p, [])
-    | Lost p => (do_lost s p, [])
-    | Resolve src dst => (s, resolve s src dst)
+  (* ---- running directives ---- *)
+  Definition set_dirs (s : state) (d : list (Z * Z * list nat)) : state :=
+    mkState (st_peer s) (st_links s) (st_by_peer s) (st_closed s) d.
+
+  Fixpoint dir_find (src dst : Z) (d : list (Z * Z * list nat)) : option (list nat) :=
+    match d with
+    | [] => None
+    | (a, b, v) :: d' => if Z.eqb a src && Z.eqb b dst then Some v else dir_find src dst d'
     end.
 
-  Definition run_from (s : state) (h : list action) : state :=
-    fold_left (fun s a => fst (step s a)) h s.
+  (* start a resolver for (src, dst) unless that directive is already running *)
+  Definition dir_start (s : state) (src dst : Z) : state :=
+    match dir_find src dst (st_dirs s) with
+    | Some _ => s
+    | None => set_dirs s (st_dirs s ++ [(src, dst, resolve s src dst)])
+    end.
+
+  (* broadcast(): every parked resolver re-reads linksByPeerID[dst] *)
+  Definition refresh (s : state) : state :=
+    set_dirs s (map (fun e => match e with (a, b, _) => (a, b, resolve s a b) end) (st_dirs s)).
+
+  (* did HandleLinkEstablished take the path that stores the link (and broadcasts)? *)
+  Definition est_stores (s : state) (p : nat) : bool :=
+    negb (Z.eqb (remote_of p) (st_peer s)) &&
+    negb (option_eqb Nat.eqb (aget (uuid_of p) (st_links s)) (Some p)).
+
+  (* did HandleLinkLost find the link (fast or slow path)? *)
+  Definition lost_flushes (s : state) (p : nat) : bool :=
+    option_eqb Nat.eqb (aget (uuid_of p) (st_links s)) (Some p) ||
+    match find_val p (st_links s) with Some _ => true | None => false end.
+
+  (* lb: whether HandleLinkLost broadcasts *)
+  Definition step_gen (lb : bool) (s : state) (a : action) : state * list nat :=
+    match a with
+    | Est p =>
+        let s' := do_est s p in
+        if est_stores s p
+        then (* newEstablishedLink adds EstablishLinkWithPeer(local, remote); broadcast() *)
+          (refresh (dir_start s' (local_of p) (remote_of p)), [])
+        else (s', [])
+    | Lost p =>
+        let s' := do_lost s p in
+        (* broadcast() follows flushEstablishedLink in the branch that found the link *)
+        ((if lb && lost_flushes s p then refresh s' else s'), [])
+    | Resolve src dst =>
+        (* a reference on EstablishLinkWithPeer(src, dst): joins the running
+           directive or starts its resolver; an empty source also asserts
+           EstablishLinkWithPeer(transport peer, dst) *)
+        if Z.eqb dst 0 then (s, [])
+        else
+          let s1 := dir_start s src dst in
+          let s2 := if Z.eqb src 0 then dir_start s1 (st_peer s) dst else s1 in
+          (s2, match dir_find src dst (st_dirs s2) with Some v => v | None => [] end)
+    end.
+
+  Definition step := step_gen lost_broadcasts.
+
+  Definition run_gen (lb : bool) (s : state) (h : list action) : state :=
+    fold_left (fun s a => fst (step_gen lb s a)) h s.
+  Definition run_from (s : state) (h : list action) : state := run_gen lost_broadcasts s h.
   Definition run (me : Z) (h : list action) : state := run_from (init me) h.
 
   (* observations of every action of the history, in order *)
